@@ -53,10 +53,11 @@ Do(mm, rec, rr) ==
           /\ (HasList => ListOK /\ hunt' = LHunt)
      ELSE /\ ev' = rec /\ out' = LFrames
           /\ UNCHANGED <<loops, closed, offer, hostOf, pend, captured>>
-          /\ hunt' = IF HasList /\ ListOK THEN LHunt
-                     ELSE IF HasList THEN [m \in Targets |-> NoIP]          \* unreadable list: fails P_ListMatches unless nothing is hunted
-                     ELSE [m \in Targets |-> IF m \in refHunt' THEN RouterIP ELSE NoIP]   \* list not observed on this line
   /\ rr
+  /\ (Mode # "M" =>
+        hunt' = IF HasList /\ ListOK THEN LHunt
+                ELSE IF HasList THEN [m \in Targets |-> NoIP]          \* unreadable list: fails P_ListMatches unless nothing is hunted
+                ELSE [m \in Targets |-> IF m \in refHunt' THEN RouterIP ELSE NoIP])   \* list not observed on this line
 
 Note == [kind |-> "note"]
 
